@@ -72,6 +72,9 @@ fn raw_of(o: &Output) -> RawOut {
             ExitStatus::Skipped => ExitObs::Skipped,
             ExitStatus::Detached => ExitObs::Detached,
             ExitStatus::Unknown => ExitObs::Unknown,
+            // (a status this harness does not know is certainly not an exit code)
+            #[allow(unreachable_patterns)]
+            _ => ExitObs::Unknown,
         },
     }
 }
@@ -84,6 +87,8 @@ fn report_of(r: Result<(), TestCaseError>) -> Report {
         Err(TestCaseError::InternalError(_)) => Report::Internal,
         Err(TestCaseError::Timeout) => Report::Timeout,
         Err(TestCaseError::Skipped) => Report::Skipped,
+        #[allow(unreachable_patterns)]
+        Err(_) => Report::Internal,
     }
 }
 
